@@ -514,3 +514,19 @@ package bfe_http2
 //@   assert[a_new_stream_id_is_not_in_use] at "sc.streams[id] = st" :: !has(sc.streams, id)
 //@   assert[a_request_is_only_started_within_the_advertised_concurrency_limit] at "sc.newWriterAndRequest(st, f)" :: sc.curOpenStreams <= sc.advMaxStreams
 //@   ensures[the_highest_stream_id_never_decreases] sc.maxStreamID >= old(sc.maxStreamID)
+
+// ---- C36: the dependency tree (bounded stand-in for acyclicity; see /verif/bounded/C36_priority_tree_test.go) ----
+
+//@ func adjustStreamPriority
+//@   props C36
+//@   nopanic nil,index
+//@   requires forall id uint32 :: has(streams, id) ==> streams[id] != nil
+//@   modifies any stream.weight, any stream.parent
+//@   loop 1 invariant[the_walk_starts_at_the_new_parent] piter != nil ==> parent != nil
+//@   loop 2 invariant[streams_in_the_table_are_not_nil] forall id uint32 :: has(streams, id) ==> streams[id] != nil
+
+//@ func (*serverConn).processPriority
+//@   props C36
+//@   nopanic nil
+//@   requires sc != nil && f != nil && (forall id uint32 :: has(sc.streams, id) ==> sc.streams[id] != nil)
+//@   modifies any stream.weight, any stream.parent
